@@ -90,6 +90,17 @@ type M7 struct {
 	UpdatedAt time.Time
 }
 
+// M1 has every save/create/update hook; they do nothing, so hook-running finishers go through the hook
+// dispatch (callMethod) and the diff shows that nothing else is written
+func (m *M1) BeforeSave(tx *gorm.DB) error   { hookCalls++; return nil }
+func (m *M1) BeforeCreate(tx *gorm.DB) error { hookCalls++; return nil }
+func (m *M1) AfterCreate(tx *gorm.DB) error  { hookCalls++; return nil }
+func (m *M1) BeforeUpdate(tx *gorm.DB) error { hookCalls++; return nil }
+func (m *M1) AfterUpdate(tx *gorm.DB) error  { hookCalls++; return nil }
+func (m *M1) AfterSave(tx *gorm.DB) error    { hookCalls++; return nil }
+
+var hookCalls int
+
 func (M7) TableName() string { return "t7" }
 func (M1) TableName() string { return "t1" }
 func (M2) TableName() string { return "t2" }
@@ -316,7 +327,10 @@ func genType(r *lib.Rng) (string, []FDesc) {
 		perm(&f)
 		// a database-side default only on fields gorm keeps a data type for ("-" / "-:all" clear it and the
 		// field then never reaches FieldsWithDefaultDBValue, whatever "<-" says: contradictory tags, not generated)
-		f.DBDef = f.Dash == "" && r.Chance(1, 4)
+		// ... and not on a field that is not readable ("->:false"): gorm.Scan dereferences a nil field for the
+		// RETURNING column of such a field in its ON CONFLICT DO NOTHING mode (nil-pointer panic in Save(&slice) /
+		// batch upserts; reported to the lead as a crash of the read-back path, not a C10 matter)
+		f.DBDef = f.Dash == "" && f.RO != "->:false" && r.Chance(1, 4)
 		f.LitDef = !f.DBDef && r.Chance(1, 5)
 		fs = append(fs, f)
 	}
@@ -649,8 +663,16 @@ func buildMap(t TDesc, r Row) map[string]interface{} {
 	return m
 }
 
-func run(e *env, in Input) Obs {
-	var o Obs
+func run(e *env, in Input) (o Obs) {
+	defer func() {
+		if p := recover(); p != nil { // gorm panicked: reported as an error of the finisher, the table is diffed no more
+			o.Err = fmt.Sprint("PANIC: ", p)
+			o.Cells = []Cell{}
+			fmt.Fprintln(os.Stderr, "gorm panicked:", p, "on", in.Kind)
+			b, _ := json.Marshal(in)
+			fmt.Fprintln(os.Stderr, string(b))
+		}
+	}()
 	rawDB = e.db
 	t := typeOf(in)
 	e.createTable(t)
@@ -721,7 +743,19 @@ func run(e *env, in Input) Obs {
 	var res *gorm.DB
 	switch in.Kind {
 	case "create":
-		res = tx.Create(buildStruct(t, in.Rows[0]).Interface())
+		if in.Batch > 0 { // CreateInBatches of a single struct falls back to Create
+			res = tx.CreateInBatches(buildStruct(t, in.Rows[0]).Interface(), in.Batch)
+		} else {
+			res = tx.Create(buildStruct(t, in.Rows[0]).Interface())
+		}
+	case "save_slice":
+		sl := reflect.MakeSlice(reflect.SliceOf(t.Type), 0, len(in.Rows))
+		for _, r := range in.Rows {
+			sl = reflect.Append(sl, buildStruct(t, r).Elem())
+		}
+		p := reflect.New(sl.Type())
+		p.Elem().Set(sl)
+		res = tx.Save(p.Interface())
 	case "create_batch":
 		sl := reflect.MakeSlice(reflect.SliceOf(t.Type), 0, len(in.Rows))
 		for _, r := range in.Rows {
@@ -784,7 +818,13 @@ func run(e *env, in Input) Obs {
 		res = tx.Clauses(clause.OnConflict{Columns: []clause.Column{{Name: "id"}}, DoUpdates: clause.AssignmentColumns(cs)}).
 			Create(buildStruct(t, in.Rows[0]).Interface())
 	case "save":
-		res = tx.Save(buildStruct(t, in.Rows[0]).Interface())
+		if in.Ptr { // Save(&ptr): pointer to pointer
+			pp := reflect.New(reflect.PtrTo(t.Type))
+			pp.Elem().Set(buildStruct(t, in.Rows[0]))
+			res = tx.Save(pp.Interface())
+		} else {
+			res = tx.Save(buildStruct(t, in.Rows[0]).Interface())
+		}
 	case "update":
 		pv := in.Rows[0].PV[0]
 		f := t.Fields[pv.Field]
@@ -837,8 +877,21 @@ func run(e *env, in Input) Obs {
 			return m, 0
 		}
 		pick := in.Rows[0]
-		if id > 1000 && int(id-1001) < len(in.Rows) {
-			pick = in.Rows[id-1001]
+		fresh := in.Rows
+		if in.Kind == "save_slice" { // stored keys are updated in place, the other elements become the new rows
+			fresh = nil
+			for _, r := range in.Rows {
+				if _, isStored := before[r.ID]; isStored {
+					if r.ID == id {
+						pick = r
+					}
+				} else {
+					fresh = append(fresh, r)
+				}
+			}
+		}
+		if id > 1000 && int(id-1001) < len(fresh) {
+			pick = fresh[id-1001]
 		}
 		for _, pv := range pick.PV {
 			m[pv.Field] = pv.Zero
@@ -973,6 +1026,8 @@ func gKind(in Input, t TDesc) string {
 		return lib.App("OUpsertCols", lib.ListOf(in.Cols, func(j int) string { return lib.Str(t.Fields[j].Col) }))
 	case "save":
 		return "OSave"
+	case "save_slice":
+		return "OSaveSlice"
 	case "update", "updates_map":
 		return "OUpdatesMap"
 	case "update_column", "update_columns_map":
@@ -1023,7 +1078,7 @@ func term(in Input, o Obs) string {
 
 // ---- generation ------------------------------------------------------------------------------------
 
-var kinds = []string{"create_batch", "create_maps", "create_maps", "foc_assign", "foc_assign", "foi_assign", "create", "create_batch", "create_map", "upsert_all", "upsert_cols", "upsert_nothing", "save",
+var kinds = []string{"save_slice", "create_batch", "create_maps", "create_maps", "foc_assign", "foc_assign", "foi_assign", "create", "create_batch", "create_map", "upsert_all", "upsert_cols", "upsert_nothing", "save",
 	"update", "updates_struct", "updates_map", "update_column", "update_columns_struct", "update_columns_map"}
 
 func nonKey(t TDesc) []int {
@@ -1159,10 +1214,21 @@ func genInput(r *lib.Rng, edge bool, dyn *Input) Input {
 	switch in.Kind {
 	case "create":
 		in.Rows = []Row{structRow(r, t, freshID(), 1, 3, edge)}
+		if r.Chance(1, 5) {
+			in.Batch = r.Range(1, 2)
+		}
 	case "create_batch":
 		n := r.Range(2, 3)
+		auto := r.Chance(1, 3) // keys assigned by the database
 		for i := 0; i < n; i++ {
-			in.Rows = append(in.Rows, structRow(r, t, int64(7+i), 1, 3, edge))
+			id := int64(7 + i)
+			if auto {
+				id = 0
+			}
+			in.Rows = append(in.Rows, structRow(r, t, id, 1, 3, edge))
+		}
+		if !auto && edge && r.Chance(1, 4) {
+			in.Rows[n-1].ID = int64(1 + r.Intn(4)) // a stored key: the whole (batched) create must fail
 		}
 		if r.Bool() {
 			in.Batch = r.Range(1, 3)
@@ -1178,6 +1244,60 @@ func genInput(r *lib.Rng, edge bool, dyn *Input) Input {
 			if !z && len(in.Selects) == 0 && r.Chance(1, 3) {
 				in.Omits = append(in.Omits, SItem{lib.Pick(r, []string{"field", "col"}), j}) // Omit of a defaulted column
 			}
+			for i := range in.Rows {
+				for k := range in.Rows[i].PV {
+					if in.Rows[i].PV[k].Field == j {
+						in.Rows[i].PV[k].Zero = z
+					}
+				}
+			}
+		}
+	case "save_slice":
+		// 2-3 elements, stored keys (ascending) and fresh keys (ascending); no Select (the key must be inserted)
+		in.Selects = nil
+		var idsS, idsF []int64
+		for _, id := range stored {
+			if r.Chance(2, 5) {
+				idsS = append(idsS, id)
+			}
+		}
+		for _, id := range []int64{7, 8, 9} {
+			if r.Chance(1, 3) {
+				idsF = append(idsF, id)
+			}
+		}
+		all := append(idsS, idsF...)
+		if len(all) == 0 {
+			all = []int64{2, 8}
+		}
+		if len(all) > 3 {
+			all = all[:3]
+		}
+		lib.Shuffle(r, all)
+		{ // fresh keys ascending in slice order (new rows are matched to elements in key order)
+			var fr []int64
+			for _, id := range all {
+				if id > 4 {
+					fr = append(fr, id)
+				}
+			}
+			sort.Slice(fr, func(i, j int) bool { return fr[i] < fr[j] })
+			k := 0
+			for i, id := range all {
+				if id > 4 {
+					all[i] = fr[k]
+					k++
+				}
+			}
+		}
+		for _, id := range all {
+			in.Rows = append(in.Rows, structRow(r, t, id, 1, 3, edge))
+		}
+		for _, j := range nonKey(t) { // database-side defaults: a value in every element or in none
+			if !t.Fields[j].DBDef {
+				continue
+			}
+			z := r.Chance(1, 3)
 			for i := range in.Rows {
 				for k := range in.Rows[i].PV {
 					if in.Rows[i].PV[k].Field == j {
@@ -1268,6 +1388,7 @@ func genInput(r *lib.Rng, edge bool, dyn *Input) Input {
 			id = freshID()
 		}
 		in.Rows = []Row{structRow(r, t, id, 1, 3, edge)}
+		in.Ptr = r.Chance(1, 4)
 	default: // updates
 		mapRowUpdate = true
 		switch in.Kind {
@@ -1602,6 +1723,6 @@ func main() {
 		}
 		add(kind, in)
 	}
-	out.Extra["rule"] = "a case = one write finisher (Create, Create(&slice)/CreateInBatches, Create from map, upsert UpdateAll / DoUpdates(cols) / DoNothing, Save, Update, Updates struct|map, UpdateColumn, UpdateColumns struct|map, Create(&[]map) with per-key column/field spelling, [Model(&T{}).]Where(2-3 rows).Assign(map).FirstOrCreate|FirstOrInit on a found record) on one of six fixed hand-written model types or (half of the cases) on a GENERATED model type built with reflect.StructOf: key + 3-6 string/int fields, each with an independent random choice of '-' / '-:all' / '-:migration', '->' / '->:false' and '<-' / '<-:create' / '<-:update' / '<-:false' / '<-:create,update', default or custom column, a database-side default `default:(expr)` on 1/4 of the fields, optional CreatedAt / UpdatedAt / Touched tracked fields as time.Time, unix seconds or milliseconds with random permissions. The fixed types (together they carry every permission tag <-:create <-:update <-:false <- -> ->:false ->;<-:create - -:migration -:all <-:create,update, custom column names, and auto-time fields as time.Time / unix seconds / milliseconds with and without write permission)) x random Select/Omit lists (0-3 items: '*', 'tbl.*', struct-field spelling, column spelling, 'tbl.col', unknown name) x payload with zero and non-zero entries (struct: every field; map: 1-4 keys in column or field spelling) x model key (a struct, or a slice of 2-3 structs mixing keyed and key-less elements in every order, always with a Where) and/or Where(row IN subset) selecting a strict subset of the 4 stored rows; the seventh fixed type M7 has a COMPOSITE primary key (ID, Locale) whose stored rows share members pairwise, updated through model values carrying the whole key or one member. Observed: the cell-by-cell diff of the table (raw SELECT) with each changed cell classified now / payload value / other, and gorm's parsed permission flags. Domain: map keys name existing columns and (for updates) never the primary key; DoUpdates(cols) runs without Select/Omit; the struct payload is of the model type with a zero key; updates always carry a model key or a Where; explicit DoUpdates lists name only columns with create and update permission. distinct = distinct (type, finisher, select, omit, payload zero pattern and spelling, targeting); non-trivial = some cell changed and (a Select/Omit is present or the type carries permission tags)."
+	out.Extra["rule"] = "a case = one write finisher (Create, Create(&slice)/CreateInBatches, Create from map, upsert UpdateAll / DoUpdates(cols) / DoNothing, Save (also of a pointer to the pointer), Save of a slice mixing stored and fresh keys, Update, Updates struct|map, UpdateColumn, UpdateColumns struct|map, Create(&[]map) with per-key column/field spelling, [Model(&T{}).]Where(2-3 rows).Assign(map).FirstOrCreate|FirstOrInit on a found record) on one of six fixed hand-written model types or (half of the cases) on a GENERATED model type built with reflect.StructOf: key + 3-6 string/int fields, each with an independent random choice of '-' / '-:all' / '-:migration', '->' / '->:false' and '<-' / '<-:create' / '<-:update' / '<-:false' / '<-:create,update', default or custom column, a database-side default `default:(expr)` on 1/4 of the fields, optional CreatedAt / UpdatedAt / Touched tracked fields as time.Time, unix seconds or milliseconds with random permissions. The fixed types (together they carry every permission tag <-:create <-:update <-:false <- -> ->:false ->;<-:create - -:migration -:all <-:create,update, custom column names, and auto-time fields as time.Time / unix seconds / milliseconds with and without write permission)) x random Select/Omit lists (0-3 items: '*', 'tbl.*', struct-field spelling, column spelling, 'tbl.col', unknown name) x payload with zero and non-zero entries (struct: every field; map: 1-4 keys in column or field spelling) x model key (a struct, or a slice of 2-3 structs mixing keyed and key-less elements in every order, always with a Where) and/or Where(row IN subset) selecting a strict subset of the 4 stored rows; the seventh fixed type M7 has a COMPOSITE primary key (ID, Locale) whose stored rows share members pairwise, updated through model values carrying the whole key or one member. Observed: the cell-by-cell diff of the table (raw SELECT) with each changed cell classified now / payload value / other, and gorm's parsed permission flags. Domain: map keys name existing columns and (for updates) never the primary key; DoUpdates(cols) runs without Select/Omit; the struct payload is of the model type with a zero key; updates always carry a model key or a Where; explicit DoUpdates lists name only columns with create and update permission. distinct = distinct (type, finisher, select, omit, payload zero pattern and spelling, targeting); non-trivial = some cell changed and (a Select/Omit is present or the type carries permission tags)."
 	lib.Must(out.Flush())
 }
